@@ -355,6 +355,26 @@ def oracle_quiet(ctx, sc, prop):
         report(ctx, sc, '%s:stuck:quiescent-state-not-quiet' % prop, 0, 'quiescence',
                'buffers empty, nothing to read, every flag propagated', t.show()[:600])
         return False
+    # C02_no_stuck_state, on the real objects: the loop is at rest, so no move of the loop may still make a difference -
+    # give every listed handler one callback with every socket ready (the wake-up the loop did NOT give) and look
+    # whether anything changes; if it does, the loop was resting on work it never asked to be woken for
+    before = t.show()
+    full = Io('ok', 'd65536', 's65536', False)
+    for end in ('c', 's'):
+        for i, f in enumerate(t.flows):
+            p = f.sproxy if end == 's' else f.cproxy
+            hl = t.shandlers if end == 's' else t.chandlers
+            if p is not None and p in hl:
+                sc.do(('cb', end, i, full))
+    ctx.hist('rest-is-fixpoint-checked')
+    after = t.show()
+    if after != before and not sc.stop:
+        fa, fb = before.split(' '), after.split(' ')
+        d = next((j for j in range(min(len(fa), len(fb))) if fa[j] != fb[j]), 0)
+        report(ctx, sc, '%s:stuck:loop-at-rest-but-a-callback-still-moves' % prop, 0, 'quiescence',
+               'at rest no callback changes anything (every wake-up that matters was asked for)',
+               'before: %s | after: %s' % (' '.join(fa[max(0, d - 2):d + 3]), ' '.join(fb[max(0, d - 2):d + 3])))
+        return False
     # C02_quiet_complete, read off the real objects: at rest every close has reached the other endpoint's socket
     for i, f in enumerate(t.flows):
         if i in sc.faulty or not f.s_ever or f.connect_aborted:
